@@ -51,11 +51,15 @@ class World:
         fmts = self.scn.get("fmt", {})
         for r in self.uni.roots:
             os.makedirs(self.abs(r["dir"]), exist_ok=True)
-        for k, d in self.uni.defs.items():
+        seen = set()
+        for ri, d in self.uni.all:
+            k = T.def_key(d)
             text, lmap = render(d, fmts.get(k))
-            self.lmaps[k] = lmap
-            self.texts[k] = text
-            self.write(self.uni.file_of(k), text)
+            if k not in seen:
+                self.lmaps[k] = lmap
+                self.texts[k] = text
+                seen.add(k)
+            self.write(self.uni.file_of_def(ri, d), text)
         for rel, text in self.scn.get("extra_files", []):
             self.write(rel, text)
         for rel in self.scn.get("extra_dirs", []):
@@ -117,6 +121,8 @@ class World:
         cwd_abs = self.abs(op.get("cwd", "")) if op.get("cwd") is not None else self.scratch
         os.makedirs(cwd_abs, exist_ok=True)
         os.chdir(cwd_abs)
+        if not fsseam._state["installed"]:
+            raise RuntimeError("file-system seams are not installed")
         fsseam.set_key(op.get("key"))
         self.prints = []
         log = fsseam.start_open_log(self.scratch)
